@@ -110,6 +110,12 @@ pub fn build(
             "base_files_swept_completely": measures.get("enum_base").copied().unwrap_or(0),
             "complete": planned_runs >= crate::scenario::enum_runs(tier),
         });
+        coverage["truncation_sweep"] = json!({
+            "definition": "per base file: every prefix length 0..=len; base files are dealt to the 22 readers in turn (18 extensions, PSF, TDF, palette, clipboard)",
+            "base_files": crate::scenario::trunc_bases(tier),
+            "base_files_swept_completely": measures.get("trunc_base").copied().unwrap_or(0),
+            "complete": planned_runs >= crate::scenario::trunc_runs(tier),
+        });
     }
     let zero_probes: Vec<&String> = agg.counters.iter().filter(|(k, v)| k.starts_with("probe_") && **v == 0).map(|(k, _)| k).collect();
     if !zero_probes.is_empty() {
